@@ -108,4 +108,20 @@ CHECKS = {
             dict(name="regress", run="^TestRegress", shards=(1, 1)),
         ],
     ),
+    "C13": dict(
+        pkg="./cidx", level="exploration",
+        runs=[
+            dict(name="seq", run="^TestC13IndexQueries$", checks=(800, 6000), shards=(4, 16), shrinktime="20s"),
+            dict(name="conc", run="^TestC13Concurrent$", checks=(200, 2000), shards=(2, 8), shrinktime="20s"),
+            dict(name="regress", run="^TestRegress(ReverseQuery|FlushEarly)$", shards=(1, 1)),
+        ],
+    ),
+    "C14": dict(
+        pkg="./cidx", level="exploration",
+        runs=[
+            dict(name="seq", run="^TestC14QueryChange$", checks=(600, 5000), shards=(4, 16), shrinktime="20s"),
+            dict(name="handler", run="^TestC14Handler$", checks=(300, 3000), shards=(4, 16), shrinktime="20s"),
+            dict(name="regress", run="^TestRegressNilKeyAffected$", shards=(1, 1)),
+        ],
+    ),
 }
